@@ -103,6 +103,17 @@ example : ∃ b, parse (format sampleApi) = some b ∧ textLayout b = textLayout
   let ⟨b, hb, _, _, _, hl, _⟩ := format_correct_layout sampleApi sampleApi_wf
   ⟨b, hb, hl⟩
 
+/-- END TO END WITHOUT PREMISE: for every token stream the parser accepts -/
+theorem format_correct_layout_parsed (ts : List Tok) (a : Api) (h : parse ts = some a) :
+    ∃ b, parse (format a) = some b ∧ sameDesc a b = true ∧ format b = format a ∧ WF b ∧
+      textLayout b = textLayout a ∧
+      crashes (astFormat (a.map stOf)) = false ∧ crashes (astFormat (b.map stOf)) = false :=
+  format_correct_layout a (parse_wf ts a h)
+
+example : ∃ b, parse (format sampleApi) = some b ∧ textLayout b = textLayout sampleApi :=
+  let ⟨b, hb, _, _, _, hl, _⟩ := format_correct_layout_parsed _ sampleApi (parse_print sampleApi sampleApi_wf)
+  ⟨b, hb, hl⟩
+
 /-! ### format.File -/
 
 /-- an error (unreadable file, Source error, failed write) leaves every file as it was -/
